@@ -244,6 +244,49 @@ def run_property(pid, tier='quick', seed=0):
             known.append((f, o))
             continue
         violations.append((q, o, rep))
+    # undecided obligations: the solver gave no verdict.  A native replay of its candidate model (if it left one) or
+    # of the function's small-scope search is decisive when it exhibits a failing input.  Otherwise an obligation
+    # that is in the committed list (= proved on the unchanged tree) and that the solver now gives up on for a
+    # reason other than time is reported as the failed obligation it is, marked no-failing-input-found; timeouts
+    # and exhausted budgets stay undecided (exit 2).
+    expected_names = set(json.load(open(exp_path))['names']) if os.path.exists(exp_path) else set()
+    still_unknown = []
+    searched = {}
+    for q, o in unknown:
+        cm = next((c for c in cex if c[1] == o.name), None)
+        if q not in searched or cm is not None:
+            k += 1
+            rep = rp.replay_counterexample(pid, q, o, cm, k, run_search=q not in searched)
+            searched.setdefault(q, rep if rep.get('reproduced') and rep.get('found_by_search') else None)
+            if not rep.get('reproduced') and searched.get(q):
+                rep = searched[q]
+        else:
+            rep = searched[q] or {'reproduced': False}
+        if rep.get('reproduced'):
+            sn = strip_name(o.name)
+            f = next((f for f in findings if sn in f.rest or o.name in f.rest), None)
+            if f is not None and rp.matches_finding(f, rep):
+                known.append((f, o))
+            else:
+                violations.append((q, o, rep))
+            continue
+        gave_up = 'incomplete' in (o.reason or '') and os.environ.get('VERIF_RECORD') != '1'
+        if gave_up and strip_name(o.name) in expected_names and o.kind != 'cover':
+            k += 1
+            path = os.path.join(HERE, 'replay', '%s-%d.json' % (pid, k))
+            json.dump({'property': pid, 'function': q, 'failed_obligation': o.name, 'kind': o.kind,
+                       'solver': {'backend': o.backend, 'result': 'unknown', 'reason': o.reason, 'seconds': o.seconds},
+                       'candidate_model': (cm[3] if cm else None), 'candidate_inputs': (cm[2] if cm else None),
+                       'reproduced': False,
+                       'note': 'no-failing-input-found: this obligation is in the committed list of obligations proved '
+                               'on the unchanged tree (obligations/%s.json) and the solver can no longer discharge it '
+                               '(%s); neither its candidate model nor the small-scope search of the function gave '
+                               'a failing input' % (pid, o.reason)}, open(path, 'w'), indent=1, default=str)
+            violations.append((q, o, {'path': path, 'reproduced': False,
+                                      'detail': 'no longer provable: solver says %s' % o.reason}))
+            continue
+        still_unknown.append((q, o))
+    unknown = still_unknown
     for b in bounded:
         for v in b.get('violations', []):
             f = next((f for f in findings if v.get('key') and v['key'] in f.rest), None)
